@@ -1223,6 +1223,18 @@ impl Family for FactorFamily {
             rep.stat(&format!("strategy_{}", cfg.strategy.name().split('(').next().unwrap()), 1);
             if out.sim.flip_step.is_some() {
                 rep.stat("aborted_runs", 1);
+                rep.stat(
+                    match cfg.abort {
+                        AbortPlan::AtPoll(_) => "aborted_runs_plan_at_poll",
+                        AbortPlan::AtTime(_) => "aborted_runs_plan_at_time",
+                        AbortPlan::AtRegion(..) => "aborted_runs_plan_at_region",
+                        AbortPlan::Never => "aborted_runs_plan_never",
+                    },
+                    1,
+                );
+                if out.sim.flip_step.is_some() && threads.map(|t| t != 1).unwrap_or(false) {
+                    rep.stat("aborted_runs_with_pool", 1);
+                }
             }
             rep.stat("relations_checked", out.obs.cycles_checked + out.obs.stored_checked);
             rep.stat("map_invariant_breaks", out.obs.map_invariant_breaks);
